@@ -344,6 +344,8 @@ def install(world, weak=False):
     world.loopspecs.update(trans_hints(trans_specs()))
     world.contracts[TR] = FnContract(TR, trans_contract)
     world.loopspecs.update(dispatch_specs())
+    world.loopspecs.update(query_specs())
+    world.local_types[('hsm.HsmEventProcessor.child_state', 'child')] = 'state'
     world.local_types[('hsm.HsmEventProcessor.init', 'tpath')] = 'list<state>'
     world.local_types[('hsm.HsmEventProcessor.init', 'outermost')] = 'state'
     world.local_types[('hsm.HsmEventProcessor.dispatch', 'tpath')] = 'list<state>'
@@ -646,7 +648,8 @@ def dispatch_specs(fixed_high_water=True):
                 ('turn-point', turn_ok(g)),
                 ('first-init-at-target', z3.Implies(g['g_n_in'] == 0, t == g['g_T']))]
 
-    s4 = _mon_mods(LoopSpec(inv4, mods, None, 'dispatch-init'))
+    s4 = LoopSpec(inv4, mods, None, 'dispatch-init')
+    s4.ghost_modifies = ['g_cur', 'g_goal', 'g_phase', 'g_n_en', 'g_n_in', 'g_last_in_tran', 'g_turn', 'g_turned']
 
     # ---- loop 5: climb from the init target up to t, recording the entry path
     def inv5(it, env):
@@ -691,3 +694,42 @@ def dispatch_specs(fixed_high_water=True):
                   'dispatch-init-enter')
     s6.ghost_modifies = ['g_cur', 'g_phase', 'g_n_en', 'g_turn', 'g_turned']
     return {(DI, 1): s1, (DI, 2): s2, (DI, 3): s3, (DI, 4): s4, (DI, 5): s5, (DI, 6): s6}
+
+
+# =====================================================================================================
+# is_in / child_state (C22)
+# =====================================================================================================
+def query_specs():
+    II, CS = 'hsm.HsmEventProcessor.is_in', 'hsm.HsmEventProcessor.child_state'
+
+    def upward(it, env, X):
+        c = it.c
+        self = env['self']
+        cur = c.pyghost['cur0']
+        f = temp_fun(it, self)
+        return c, self, cur, f, [
+            ('cursor-on-active-path', z3.And(is_state(f), encloses(f, cur))),
+            ('state-fun-untouched', state_fun(it, self) == cur),
+            ('lower-path-states-differ', z3.ForAll([_d], z3.Implies(z3.And(depth(f) < _d, _d <= depth(cur)),
+                                                                    anc(cur, _d) != X), patterns=[anc(cur, _d)]))]
+
+    def inv_is_in(it, env):
+        X = it.c.to_ref(env['fn_state_handler'])
+        c, self, cur, f, base = upward(it, env, X)
+        return base + [('not-found-yet', z3.Not(c.to_bool(env['result'])))]
+
+    def var(it, env):
+        return depth(temp_fun(it, env['self']))
+
+    def mods(it, env):
+        return [(temp_of(it, env['self']), 'fun')]
+
+    def inv_child(it, env):
+        X = it.c.to_ref(env['fn_parent_state_handler'])
+        c, self, cur, f, base = upward(it, env, X)
+        child = env['child'].e
+        return base + [('not-confirmed-yet', z3.Not(c.to_bool(env['confirmed']))),
+                       ('child-below-cursor', z3.If(f == cur, child == cur, child == anc(cur, depth(f) + 1)))]
+
+    return {(II, 1): LoopSpec(inv_is_in, mods, var, 'is_in-search', locals_kind={'r': 'int'}),
+            (CS, 1): LoopSpec(inv_child, mods, var, 'child_state-search', locals_kind={'r': 'int'})}
